@@ -6,6 +6,8 @@ From RZ Require Import Base.Prelude Model.Codec Model.RouterMap Model.Envelope C
 Local Open Scope N_scope.
 
 (* ------------------------------------------------------------------ rows *)
+(* PeerInfo's owner pipe (pipe_read_id) is internal bookkeeping: the harness does not print it, so the
+   rows below carry uri and strategy of a forward entry only *)
 Definition lit_row (tag : N) (f : frame) : list N := tag :: b2n (fst f) :: snd f.
 Definition dig_row (tag : N) (f : frame) : list N := tag :: b2n (fst f) :: digest_row (snd f).
 
@@ -37,7 +39,7 @@ Definition dump_rows (m : rmap) (removed : N) : obs :=
   let f := isort (fun a b => ident_ltb (fst a) (fst b)) (fwd m) in
   let r := isort (fun a b => fst a <? fst b) (rev m) in
   [100; N.of_nat (length f); N.of_nat (length r); removed]
-    :: map (fun '(id, (u, s)) => 1 :: u :: strat_code s :: id) f
+    :: map (fun '(id, (u, s, _)) => 1 :: u :: strat_code s :: id) f
     ++ map (fun '(p, id) => 2 :: p :: id) r.
 
 (* ------------------------------------------------------------------ RouterMap histories *)
@@ -54,11 +56,11 @@ Definition mop_rows (m : rmap) (o : mop) : obs :=
   match o with
   | MSend id idmore manual payload =>
       match fget id m with
-      | Some (_, s) => [3; 1] :: map (lit_row 7) (strat_prepare s manual (idmore, id) payload)
+      | Some (_, s, _) => [3; 1] :: map (lit_row 7) (strat_prepare s manual (idmore, id) payload)
       | None => [[3; 0]]
       end
   | MGet id p =>
-      [match fget id m with Some (u, s) => [4; 1; u; strat_code s] | None => [4; 0] end;
+      [match fget id m with Some (u, s, _) => [4; 1; u; strat_code s] | None => [4; 0] end;
        match rget p m with Some i => 5 :: 1 :: i | None => [5; 0] end]
   | _ => []
   end.
